@@ -10,7 +10,7 @@ from . import inst_common as ic
 
 GEN_SECTIONS = ["Tables", "Regexes", "Unicode"]
 # leaf functions whose ASTs are dumped from /repo and proved equal to the hand model (lean/Chartparse/Tie/Phrase.lean)
-LEAVES = {'Phrase': ['tickadd', 'after', 'during']}
+LEAVES = {'Phrase': ['tickadd', 'after', 'during'], 'ComposeInst': []}
 TRUSTED = [
     "leaf ties: Py.evalBody (embedded Python subset, validated against CPython and the real functions every run) + the AST dump",
     "Lean 4 kernel; axioms ⊆ {propext, Quot.sound}",
